@@ -723,11 +723,20 @@ func refreshRing(r *ringDescriber) error {
 	}
 
 	prevHosts := r.session.ring.currentHosts()
+	// host ids already handled in this refresh
+	seen := make(map[string]struct{}, len(hosts))
 
 	for _, h := range hosts {
 		if r.session.cfg.filterHost(h) {
 			continue
 		}
+
+		// the same host can be reported more than once (duplicated peers row, or the local
+		// node listed among its own peers): the first report of a host id counts
+		if _, dup := seen[h.HostID()]; dup {
+			continue
+		}
+		seen[h.HostID()] = struct{}{}
 
 		if host, ok := r.session.ring.addHostIfMissing(h); !ok {
 			r.session.startPoolFill(h)
